@@ -44,4 +44,5 @@ def run(ctx):
     from props import mextra
     ctx.mir()
     ctx.parallel(mextra.c05_tasks(), max_procs=6)
-    ctx.run_kani(['c05.rs'])
+    # c10.rs: the two `prop=C10,C05` harnesses (sequence search == reference across the array roll-over) decide the C10 contract this property's crossing step assumes
+    ctx.run_kani(['c05.rs', 'c10.rs'])
